@@ -71,13 +71,20 @@ def render(desc):
             L.append('[ molmeta ]')
             for key, val in desc['molmeta']:
                 L.append('%s %s' % (key, val))
-        if desc.get('atoms'):
+        if desc.get('atoms') and not desc.get('late_atoms'):
             L.append('[ atoms ]')
             for key, attrs in desc['atoms']:
                 L.append('%s %s' % (key, jmeta(attrs)))
         for sec, lines in desc['sections']:
             L.append('[ %s ]' % sec)
             L += render_inter_lines(lines)
+        if desc.get('atoms') and desc.get('late_atoms'):
+            # subsections may come in any order and any number: the atoms are declared after the interactions that already
+            # mention them, one [ atoms ] section per attribute
+            for key, attrs in desc['atoms']:
+                for ak, av in attrs.items():
+                    L.append('[ atoms ]')
+                    L.append('%s %s' % (key, jmeta({ak: av})))
         if desc.get('edges'):
             L.append('[ edges ]')
             L += ['%s %s' % e for e in desc['edges']]
@@ -172,8 +179,13 @@ FAULTS = {
     'patterns-in-block': ['[ moleculetype ]', 'F 1', '[ atoms ]', '1 P1 1 F BB 1', '[ patterns ]', 'BB {"a": 1}'],
 }
 
+# a link that lists its interactions first and declares its atoms afterwards, one attribute per [ atoms ] section
+L_4 = {'k': 'link', 'attrs': [], 'late_atoms': True,
+       'atoms': [('BB', {'resname': 'ALA', 'cgsecstruct': 'H'}), ('+BB', {'resname': 'GLY'})],
+       'sections': [('bonds', [('inter', ['BB', '+BB'], ['1', '0.36', '1300'], {'group': 'late'})]),
+                    ('angles', [('inter', ['BB', '+BB', '++BB'], ['2', '96', '700'], None)])]}
 MENU = {1: MACROS, 2: VARIABLES, 3: CITATIONS, 4: B_A1, 5: B_A2, 6: B_B1, 7: L_1, 8: L_2, 9: L_3, 10: M_M1, 11: M_M2, 12: M_N1,
-        13: B_C1, 14: M_N2}
+        13: B_C1, 14: M_N2, 15: L_4}
 FAULT_IDS = {100 + i: name for i, name in enumerate(sorted(FAULTS))}
 
 
